@@ -53,12 +53,28 @@ def build_scratch():
 
 
 def run_runner(root, seed, n, outp):
+    """two invocations: the implicit poloidal iteration (a compiled loop that cannot be interrupted if it does not
+    converge) runs separately under a short limit; a timeout is an outcome of the compiled/interpreted program"""
+    a, ea = _run_runner(root, seed, n, outp, 'main', 400)
+    if a is None:
+        return None, ea
+    b, eb = _run_runner(root, seed, n, outp + '.impl', 'impl', 150)
+    if b is None:
+        a['impl_error'] = 'implicit poloidal step: ' + eb
+        return a, ''
+    a['results'].update(b['results'])
+    for k, v in b['skipped'].items():
+        a['skipped'][k] = a['skipped'].get(k, 0) + v
+    return a, ''
+
+
+def _run_runner(root, seed, n, outp, part, tmo):
     env = dict(os.environ)
     env.pop('PYTHONPATH', None)
     env['PYTHONDONTWRITEBYTECODE'] = '1'
-    rc, out, err = core.sh([core.PY, os.path.join(core.VERIF, 'harness', 'c19_runner.py'), root, core.SHIMS, str(seed), str(n), outp], 1800, env=env)
+    rc, out, err = core.sh([core.PY, os.path.join(core.VERIF, 'harness', 'c19_runner.py'), root, core.SHIMS, str(seed), str(n), outp, part], tmo, env=env)
     if rc != 0:
-        return None, (out + err)[-1500:]
+        return None, ('TIMEOUT after %ds (a kernel does not terminate) ' % tmo if rc == 124 else '') + (out + err)[-1500:]
     return pickle.load(open(outp, 'rb')), ''
 
 
@@ -342,6 +358,10 @@ def run():
                     chk.violation('kernels:%s-run-fails' % which, '%s kernels fail on the seeded inputs: %s' % (which, (e1 or e2)[-500:]),
                                   {'kind': 'impl', 'seed': sd, 'stderr': (e1 or e2)})
                     continue
+                for which, d in (('compiled', comp), ('interpreted', intr)):
+                    if d.get('impl_error'):
+                        chk.violation('kernels:%s-implicit-step-fails' % which, '%s kernels: %s' % (which, d['impl_error'][-400:]),
+                                      {'kind': 'impl', 'seed': sd, 'stderr': d['impl_error']})
                 notso = [m for m, f in comp['files'].items() if not f.endswith('.so')]
                 notpy = [m for m, f in intr['files'].items() if not f.endswith('.py')]
                 if notso:
